@@ -38,6 +38,8 @@ def sample_cases(draw, tier="quick"):
         st.tuples(st.just("burnthin"), st.integers(0, 6), st.integers(1, 4)),
         st.tuples(st.just("funvals")), st.tuples(st.just("vector")), st.tuples(st.just("parameters"))),
         min_size=0, max_size=6))
+    # which earlier object each operation is applied to (0 = the most recent one, k = k steps back): histories branch
+    c["targets"] = draw(st.lists(st.integers(0, 3), min_size=len(c["ops"]), max_size=len(c["ops"])))
     return c
 
 
@@ -133,11 +135,11 @@ def run_history(c, rec):
     if G is None:
         import cuqi
         G = cuqi.geometry._DefaultGeometry1D(raw.shape[0])
-    # model: (array, is_par, is_vec)
-    model = (raw.copy(), S.is_par, S.is_vec)
-    cur = S
-    originals = [(S, raw.copy())]
-    for op in ops:
+    # pool of (Samples object, numpy model (array, is_par, is_vec), snapshot of its array)
+    pool = [(S, (raw.copy(), S.is_par, S.is_vec), raw.copy())]
+    targets = c.get("targets") or [0] * len(ops)
+    for op, back in zip(ops, targets):
+        cur, model, _ = pool[max(0, len(pool) - 1 - back)]
         arr, is_par, is_vec = model
         N = arr.shape[-1]
         if op[0] == "burnthin":
@@ -169,16 +171,16 @@ def run_history(c, rec):
                 else:
                     conv = np.stack([np.asarray(G.fun2par(arr[..., i].copy())) for i in range(N)], axis=-1)
                 model = (conv, True, True)
-        cur = new
-        originals.append((cur, np.array(cur.samples, dtype=float).copy()))
         arr, is_par, is_vec = model
-        require(np.asarray(cur.samples).shape == arr.shape and maxdiff(cur.samples, arr) <= 1e-12,
-                f"after {op}: samples differ from the numpy model", got=cur.samples, want=arr)
-        require(bool(cur.is_par) == is_par, f"after {op}: is_par flag wrong")
+        require(np.asarray(new.samples).shape == arr.shape and maxdiff(new.samples, arr) <= 1e-12,
+                f"after {op} (applied {back} objects back): samples differ from the numpy model", got=new.samples, want=arr)
+        require(bool(new.is_par) == is_par, f"after {op}: is_par flag wrong")
         if is_par or arr.ndim <= 2:
-            require(bool(cur.is_vec) == (True if is_par else is_vec), f"after {op}: is_vec flag wrong")
-        require(cur.geometry == G, f"after {op}: geometry changed")
-        for obj, snap in originals:
+            require(bool(new.is_vec) == (True if is_par else is_vec), f"after {op}: is_vec flag wrong")
+        require(new.geometry == G, f"after {op}: geometry changed")
+        require(close(new.mean(), np.mean(arr, axis=-1), 1e-12), f"after {op}: mean is not the mean of the model chain")
+        pool.append((new, model, np.array(new.samples, dtype=float).copy()))
+        for obj, _, snap in pool:
             require(maxdiff(obj.samples, snap) == 0, f"after {op}: an earlier Samples object was altered")
 
 
